@@ -254,7 +254,7 @@ class Explorer(object):
         self.max_paths = max_paths
         self.max_decisions = max_decisions
         self.branch_timeout_ms = branch_timeout_ms
-        self.full_timeout_ms = 2500
+        self.full_timeout_ms = 1500
         self.n_branch_queries = 0
         self.branch_solver_s = 0.0
         self.paths = []
@@ -276,7 +276,11 @@ class Explorer(object):
                 kind, val = runner(ctx)
                 results.append(PathResult(ctx, kind, val))
             except PyExc as e:
-                results.append(PathResult(ctx, 'raise', None, exc=e.exc))
+                # a raising path whose condition contradicts the quantified facts is not a path
+                if not ctx.feasible_full(z3.BoolVal(True)):
+                    results.append(PathResult(ctx, 'abort', None, aborted='infeasible raise path'))
+                else:
+                    results.append(PathResult(ctx, 'raise', None, exc=e.exc))
             except PathAbort as e:
                 results.append(PathResult(ctx, 'abort', None, aborted=str(e)))
         self.paths = results
